@@ -240,6 +240,9 @@ def fixture_facts(name="positive"):
                             "FACTS_OUT": outdir, "FACTS_CRATES": name, "FACTS_CONFIG": "fixture", "FACTS_TREE": key})
                 r = subprocess.run(["cargo", "+nightly", "check", "--offline", "--lib"], cwd=src, env=env, capture_output=True, text=True)
                 if r.returncode != 0 or not os.path.exists(fact):
+                    # the driver may have written facts before a deny-level lint stopped the build: a failed build must never look
+                    # like an analysed family to the next run (found with a shape that tripped `legacy_derive_helpers`)
+                    shutil.rmtree(outdir, ignore_errors=True)
                     raise InfraError("fixture crate %s could not be analysed:\n%s" % (name, r.stderr[-3000:]))
     with open(fact) as fh:
         return json.load(fh)
